@@ -316,7 +316,7 @@ def run(chk):
         "before the loop is left."
     )
     chk.not_decided = "arithmetic correctness of the offsets themselves; equality of delivered bodies/chunk boundaries under all cuts (value level)."
-    chk.explanation += " Also decided: the input buffer is only extended at the front by the saved tail or consumed from the front, the saved remainder is the whole unconsumed input, offsets are recomputed when the buffer is rebound, no decision reads a stale snapshot of parser state, and a one-shot latch that inspects the buffer is consumed only by a non-empty buffer."
+    chk.explanation += " Also decided: the input buffer is only extended at the front by the saved tail or consumed from the front, the saved remainder is the whole unconsumed input, offsets are recomputed when the buffer is rebound, no decision reads a stale snapshot of parser state, and a one-shot latch that inspects the buffer is consumed only by a non-empty buffer. After the defect hunt: CONNECT tunnel bytes must reach the payload stream the parser owns whichever read they arrive in (known finding F87)."
     hp = repo.func(MOD, "HttpParser.feed_data")
     pp = repo.func(MOD, "HttpPayloadParser.feed_data")
     for fn, nm in ((hp, "message-head parser"), (pp, "body parser")):
